@@ -28,6 +28,7 @@ def handle (line : String) : String :=
     | none => "bad-hex"
   | "filter" :: rest => Wire.runFilter rest
   | "bans" :: rest => Wire.runBans rest
+  | "cache" :: rest => Wire.runCache rest
   | "run" :: rest =>
     match Wire.decodeReq rest with
     | some r => Wire.runReq r
